@@ -55,18 +55,31 @@ class ScriptEnd(BaseException):
 
 
 class ExitScript(object):
-    def __init__(self, answers, log):
+    """a threading.Event as persist() may use it: wait() answers from the script -- unless the event has been set by the
+    application, in which case it answers True like the real one"""
+
+    def __init__(self, answers, log, preset=False):
         self.answers = list(answers)
         self.log = log
+        self.flag = bool(preset)
 
     def wait(self, t=None):
         self.log.append(("wait", t))
+        if self.flag:
+            return True
         if not self.answers:
             raise ScriptEnd()
         return self.answers.pop(0)
 
     def is_set(self):
-        return False
+        return self.flag
+    isSet = is_set
+
+    def set(self):
+        self.flag = True
+
+    def clear(self):
+        self.flag = False
 
 
 def run_impl_persist(sc):
@@ -83,7 +96,7 @@ def run_impl_persist(sc):
     ended = "running"
     try:
         kw = dict(sc.get("kwargs", {}))
-        gen = P.persist(ws, min_wait=float(sc["min"]), max_wait=float(sc["max"]), exit_event=ExitScript(sc["exits"], log), **kw)
+        gen = P.persist(ws, min_wait=float(sc["min"]), max_wait=float(sc["max"]), exit_event=(ExitScript(sc["exits"], log) if not sc.get("preset") else ExitScript([False] * (len(sc["attempts"]) + 3), log, preset=True)), **kw)
         for ev in gen:
             items.append(ev)
         ended = "returned"
@@ -184,6 +197,13 @@ def run_real_persist(attempts, react=None):
 
         def is_set(self):
             return False
+        isSet = is_set
+
+        def set(self):
+            pass
+
+        def clear(self):
+            pass
     old_time = S.time
     names = []
     ended = "running"
@@ -264,7 +284,13 @@ def gen(rnd, long_fail=False):
     kwargs = {}
     if rnd.random() < 0.5:
         kwargs = dict(poll=rnd.choice([1, 5, 0.5]), ping_rate=rnd.choice([0, 30, 7]), ping_timeout=rnd.choice([None, 60, 3]))
-    return dict(min=mn, max=mx, attempts=attempts, draws=draws, exits=exits, kwargs=kwargs)
+    sc = dict(min=mn, max=mx, attempts=attempts, draws=draws, exits=exits, kwargs=kwargs)
+    if not long_fail and rnd.random() < 0.08:
+        # the application has set the exit event before it starts iterating (persist() is a generator: nothing of it has run by
+        # then): the first back-off is the last
+        sc["exits"] = [True]
+        sc["preset"] = True
+    return sc
 
 
 def to_sx(sc):
@@ -345,7 +371,7 @@ def run(rep, info, model, tier, seed):
         res = oracle(sc, items, ws, log, ended)
         if res:
             rep.violation(res[0], scenario=dict(kind="outcome-sequence", min=str(sc["min"]), max=str(sc["max"]), attempts=list(sc["attempts"]), draws=[str(d) for d in sc["draws"]],
-                                                exits=list(sc["exits"]), kwargs=sc["kwargs"]),
+                                                exits=list(sc["exits"]), kwargs=sc["kwargs"], preset=bool(sc.get("preset"))),
                           family="C16:outcome-sequences")
         if m is not None:
             got = canon_items(items, ws)
@@ -367,7 +393,7 @@ def run(rep, info, model, tier, seed):
     if dis and not rep.violations:
         rep.broken("correspondence C16: model and implementation disagree on %d scenarios; first: %r" % (dis, first))
     rep.families.append(dict(name="C16:outcome-sequences", cases=len(scs), disagreements=dis,
-                             rule="real persist() over a scripted websocket.connect (real lomond event objects), random() and exit_event.wait() on tapes: outcome sequences of length 1-40 over {connect failure, rejection, drop before/after Ready, graceful close, protocol error, late Ready, empty}, plus runs of 70 and 1100 consecutive failures; dyadic draws and settings so that float arithmetic is exact; delays compared as exact fractions with the model and with the formula of the statement; object identity of passed-through events; connect() keyword arguments; exit at every back-off index"))
+                             rule="real persist() over a scripted websocket.connect (real lomond event objects), random() and exit_event.wait() on tapes: outcome sequences of length 1-40 over {connect failure, rejection, drop before/after Ready, graceful close, protocol error, late Ready, empty}, plus runs of 70 and 1100 consecutive failures; dyadic draws and settings so that float arithmetic is exact; delays compared as exact fractions with the model and with the formula of the statement; object identity of passed-through events; connect() keyword arguments; exit at every back-off index, and an exit event that is already set when the iteration starts"))
     if not proof_ok and not rep.violations:
         rep.broken("proof obligation props/C16.v no longer checks: %s" % (rep.coq_failure,))
 
@@ -385,7 +411,7 @@ def replay(body):
         print("this replay file predates the complete scenario format: re-run /venv/bin/python /verif/check.py C16 quick")
         return 2
     sc = dict(min=Fraction(sc["min"]), max=Fraction(sc["max"]), attempts=sc["attempts"], draws=[Fraction(d) for d in sc["draws"]], exits=sc["exits"],
-              kwargs=sc.get("kwargs") or {})
+              kwargs=sc.get("kwargs") or {}, preset=bool(sc.get("preset")))
     items, ws, log, ended = run_impl_persist(sc)
     res = oracle(sc, items, ws, log, ended)
     print("how persist() ended:", ended, "; items yielded:", len(items))
